@@ -172,6 +172,33 @@ pub fn triggers(src: &str, root: &SyntaxNode) -> Vec<&'static str> {
     // sibling-based rules
     for f in flat.iter() {
         let kids: Vec<&SyntaxNode> = f.node.children().collect();
+        // R62: a markup line whose only prose pieces are escapes, shorthands, smart quotes, links,
+        // labels, references or equations is not recognised as a text line: code embedded in it is
+        // broken over lines by the normal width rules, which separates the pieces
+        if f.node.kind() == K::Markup {
+            let (mut texty, mut other, mut code) = (false, 0, false);
+            let mut flush = |texty: &mut bool, other: &mut usize, code: &mut bool, add: &mut dyn FnMut(&'static str)| {
+                if !*texty && *other >= 1 && *code {
+                    add("R62");
+                }
+                *texty = false;
+                *other = 0;
+                *code = false;
+            };
+            for c in kids.iter() {
+                if c.kind() == K::Parbreak || (c.kind() == K::Space && syn::has_nl(c.text())) {
+                    flush(&mut texty, &mut other, &mut code, &mut add);
+                    continue;
+                }
+                match c.kind() {
+                    K::Text | K::Strong | K::Emph | K::Raw => texty = true,
+                    K::Escape | K::Shorthand | K::SmartQuote | K::Link | K::Label | K::Ref | K::Equation | K::Linebreak => other += 1,
+                    K::Hash => code = true,
+                    _ => {}
+                }
+            }
+            flush(&mut texty, &mut other, &mut code, &mut add);
+        }
         // R49: a comment inside code that sits on a markup line which also holds text (optional
         // line breaks are suppressed there): the layout with the comment differs from pass to pass
         if f.node.kind() == K::Markup {
@@ -552,6 +579,11 @@ pub fn triggers(src: &str, root: &SyntaxNode) -> Vec<&'static str> {
                     };
                     let (a, b) = (class(f.node.children().next()), class(f.node.children().last()));
                     if a != b && !single_line && (a == 1 || b == 1 || embeds) {
+                        add("R35");
+                    }
+                    // a multi-line body that ends with a list item directly before the bracket
+                    let last_sig = f.node.children().filter(|c| c.kind() != K::Space).last();
+                    if !single_line && b != 2 && last_sig.is_some_and(|c| matches!(c.kind(), K::ListItem | K::EnumItem | K::TermItem)) {
                         add("R35");
                     }
                 }
